@@ -10,11 +10,13 @@ D-c  removal guards: a shape is dropped only when it has no statement (shexer) /
      original target nor has features (profiler) - decision tables;
 D-d  siblings: direct-only and direct+inverse strategies agree (twins), original targets are
      registered by both profiling strategies (the empty shape of a requested class without instances).
+D-e  what the shexer produced reaches the output: the buffered ShExC writer delivers every line handed to its sink
+     exactly once on both channels (R-PROTO, sa.rules.writer).
 Undecided: that grouping keeps exactly one survivor per key for every mix of kinds (value level)."""
 import ast
 from ..core import walk_own, norm, AnalysisError
 from ..report import Ob, Floor
-from ..rules import threshold, twin
+from ..rules import writer, threshold, twin
 from ..abseval import Evaluator, Sym, Opaque
 from .. import exceptions
 
@@ -122,6 +124,7 @@ def check(ctx, tier):
     obs += o_sel
     obs += removal_tables(ctx, "D-c")
     obs += twin.check_pairs(ctx, "D-d", "C02")
+    obs += ctx.attempt(lambda c, cl: writer.protocol(c, cl)[0], ctx, "D-e", default=[])
     exceptions.apply(obs)
     floors = [Floor("threshold filter comparisons", len(tf.filters), 3), Floor("candidate construction sites", n_sites, 3),
               Floor("selection/grouping functions", n_sel, 5)]
